@@ -378,8 +378,10 @@ func generate(repo, out string) error {
 	colPkgs := []string{"icolumn", "fcolumn", "bcolumn", "scolumn", "ecolumn"}
 	pkgFns := map[string]map[string]*ast.FuncDecl{}
 	pkgImports := map[string]map[string]string{}
+	pkgFiles := map[string]map[string]*ast.File{}
 	for _, p := range colPkgs {
 		files := parseDir(filepath.Join(repo, "internal", p))
+		pkgFiles[p] = files
 		mt := mapTables(files, fconsts)
 		names := make([]string, 0, len(mt))
 		for n := range mt {
@@ -706,6 +708,36 @@ func generate(repo, out string) error {
 
 	// 4w. the gate keeper of user functions, Context.SetFunc with setFunc / GetFunc, as a table (sfast.go)
 	if err := writeIfChanged(filepath.Join(out, "SetFunc.lean"), []byte(setFuncLean(repo))); err != nil {
+		return err
+	}
+
+	// 4x. the string pointers, JSON quoting, ToUpper of internal/strings and the like/ilike filter loops as terms of QF.ST (strast.go)
+	if err := writeIfChanged(filepath.Join(out, "StringsFns.lean"), []byte(stringsFnsLean(repo))); err != nil {
+		return err
+	}
+
+	// 4y. the JSON reading glue (fill functions, jsonRecordsToData, UnmarshalJSON, ReadJSON) as terms of QF.JR / QF.JU (jrast.go)
+	if err := writeIfChanged(filepath.Join(out, "ReadJson.lean"), []byte(readJsonLean(repo, root))); err != nil {
+		return err
+	}
+
+	// 4z. ReadSQL of internal/io/sql (the rows.Next loop, Scan into the columns, rows.Err, the result map) as a term of QF.SR (sqlrast.go)
+	if err := writeIfChanged(filepath.Join(out, "ReadSql.lean"), []byte(readSqlLean(repo))); err != nil {
+		return err
+	}
+
+	// 4aa. the glue of ReadCSV (the record loop, isEmptyLine, the alias and rename helpers, the resize helpers, ReadCSV of the root package) as terms of QF.CG (csvgast.go)
+	if err := writeIfChanged(filepath.Join(out, "CsvGlue.lean"), []byte(csvGlueLean(repo, root))); err != nil {
+		return err
+	}
+
+	// 4ab. the typed views of the column packages (View, ItemAt, Len, Slice and their helpers) as terms of QF.Vw* (viewast.go)
+	if err := writeIfChanged(filepath.Join(out, "Views.lean"), []byte(viewsLean(colPkgs, pkgFiles, pkgFns, pkgImports))); err != nil {
+		return err
+	}
+
+	// 4ac. the write side of SQL (escape, Insert, NewArgBuilder, ColumnNames, ToSQL) as terms of QF.Sq* (sqlwast.go)
+	if err := writeIfChanged(filepath.Join(out, "SqlWrite.lean"), []byte(sqlWriteLean(repo, root, strs))); err != nil {
 		return err
 	}
 
